@@ -1,4 +1,5 @@
 import JSight.Example
+import JSight.ExampleSelf
 /-!
 # C15 — Example() emits well-formed JSON
 
@@ -6,8 +7,10 @@ Model `EX.build`: `exampleBuilder.Build` with fix F-5 (literal ↦ its token; ar
 around the emitted children joined by commas; reference ↦ the root of the first named type, omitted when
 that type is already being built twice). `EX.tree` is the same recursion producing a JSON tree in compact
 layout. Whatever `Example()` emits is the rendering of a valid JSON tree, and the JSON scanner reads
-back exactly that tree (with C06). Self-validation (`Validate(Example()) == nil`) is checked against the
-code outside the known-finding classes (harness `c15-example`), not proved.
+back exactly that tree (with C06). Self-validation (`Validate(Example()) == nil`) is proved for
+reference-free schemas (`C15_self_valid`: what is emitted is the whole EXAMPLE document and `Validate`
+accepts it, by C04/C01); with type references, `or` and recursion cut-offs it is checked against the code
+outside the known-finding classes (harness `c15-example`).
 -/
 namespace Props.C15
 open JsonScan
@@ -19,5 +22,18 @@ theorem C15_wellformed (ts : EX.Types) (hts : EX.WFTypes ts) (fuel : Nat) (n : E
 
 theorem C15_build_is_render (ts : EX.Types) (fuel : Nat) (proc : String → Nat) (n : EX.N) :
     EX.build ts fuel proc n = (EX.tree ts fuel proc n).map (Option.map JA.render) := EX.build_eq ts fuel proc n
+
+/-- reference-free schemas that `Check` accepts: the emitted bytes are the compact text of the EXAMPLE document
+(no child is omitted), and `Validate` accepts that document — for any literal rule semantics `litOK` -/
+theorem C15_self_valid {L D : Type} (tok : D → List Cls) (keyTok : String → List Cls) (ex : L → D)
+    (litOK : L → D → Bool) (ts : EX.Types) (fuel : Nat) (proc : String → Nat) (s : VP.S L)
+    (h : VP.checked litOK ex s = true) :
+    EX.build ts fuel proc (EX.ofS tok keyTok ex s) = some (some (EX.jaOf tok keyTok (VP.exampleOf ex s)).render) ∧
+    VP.validate litOK s (VP.exampleOf ex s) = true :=
+  EX.C15_self_valid tok keyTok ex litOK ts fuel proc s h
+
+/-- non-vacuity: a nested schema satisfying the hypothesis, and what is emitted for it -/
+example : VP.checked (fun (l : Nat) (d : Nat) => l == d) id
+    (.obj [("a", true, .lit 1), ("b", false, .arr [.lit 2, .obj [("c", true, .lit 3)]])]) = true := by decide +kernel
 
 end Props.C15
